@@ -100,6 +100,28 @@ func genIniForDecl(r *Rng, d *DeclSpec, dupSections bool) string {
 		}
 		b.WriteString(e.Key + " = " + e.Val + "\n")
 	}
+	if lr := r.Fork("long"); lr.Chance(1, 8) {
+		// one line longer than any read buffer: a comment in front, or the value of a string option
+		pat := lr.Pick([]string{"abcdefghij", "0123456789 ", "xyz; #", "q"})
+		long := strings.Repeat(pat, lr.Range(4200, 9000)/len(pat))
+		var cands []optInfo
+		for _, oi := range ois {
+			if oi.O.Kind == "string" && len(oi.O.Choices) == 0 && !oi.O.NoIni {
+				cands = append(cands, oi)
+			}
+		}
+		text := b.String()
+		if len(cands) > 0 && lr.Bool() {
+			oi := cands[lr.Intn(len(cands))]
+			b.WriteString("[" + oi.Section + "]\n" + oi.O.Field + " = " + long + "\n")
+			if lr.Bool() {
+				b.WriteString(oi.O.Field + " = after\n")
+			}
+		} else {
+			b.Reset()
+			b.WriteString("; " + long + "\n" + text)
+		}
+	}
 	if r.Chance(1, 6) {
 		b.WriteString("[No Such Group]\nx = 1\n")
 		if r.Bool() {
@@ -294,7 +316,6 @@ func (propC15) Judge(sc *Scenario) *Verdict {
 			break
 		}
 	}
-	_ = baseOut
 	// clock-jump twin: with the environment held fixed, nothing but the date
 	// line of a man page written without SOURCE_DATE_EPOCH may depend on the
 	// wall clock.
@@ -384,6 +405,188 @@ func (propC15) Judge(sc *Scenario) *Verdict {
 			v.OK = false
 			v.Class = "c15:depends-on-earlier-evaluation:" + cls
 			v.Msg = fmt.Sprintf("the same history with WriteHelp, WriteManPage and two INI writes inserted before operation %d gives a different %s:\n  without: %s\n  with:    %s", pos, field, clip(after(bj), 600), clip(after(obs[j]), 600))
+			break
+		}
+	}
+	// diff reports the first observable in which obs departs from base.
+	diff := func(obs []string) (field, cls, a, b string, differs bool) {
+		for j := range obs {
+			if j < len(base) && obs[j] == base[j] {
+				continue
+			}
+			field = strings.SplitN(obs[j], "=", 2)[0]
+			parts := strings.Split(field, ":")
+			cls = field
+			if len(parts) == 3 {
+				cls = parts[1] + ":" + parts[2]
+			}
+			if j < len(base) {
+				a = base[j]
+			}
+			return field, cls, clip(after(a), 600), clip(after(obs[j]), 600), true
+		}
+		return
+	}
+	// same-arguments twin: a program evaluates the same argument vector twice (the
+	// very same slices); the second evaluation must give what the first gave.
+	if v.OK && firstParse >= 0 && len(sc.Scheds) > 0 {
+		sc4 := *sc
+		sc4.argvShare = map[*Op][]string{}
+		Execute(&sc4, sc.Scheds[0])
+		o := Execute(&sc4, sc.Scheds[0])
+		v.Evals += 2
+		v.stat("twin.same-argument-slices-again")
+		if o.HarnessPanic != "" {
+			return harnessTrouble(v, o.HarnessPanic)
+		}
+		if field, cls, a, b, differs := diff(c15Observable(o)); differs {
+			v.OK = false
+			v.Class = "c15:second-evaluation-of-the-same-arguments-differs:" + cls
+			v.Msg = fmt.Sprintf("the scenario was evaluated twice with the very same argument slices handed to ParseArgs; the second evaluation gives a different %s:\n  first:  %s\n  second: %s", field, a, b)
+		}
+	}
+	// other-parser twin: a second, unrelated parser is declared and used between
+	// the operations; nothing the scenario's parser produces may change.
+	if v.OK && firstParse >= 0 && len(sc.Scheds) > 0 {
+		sc5 := *sc
+		sc5.Ops = nil
+		for i := range sc.Ops {
+			sc5.Ops = append(sc5.Ops, Op{Kind: "decoy"}, sc.Ops[i])
+		}
+		o := Execute(&sc5, sc.Scheds[0])
+		v.Evals++
+		v.stat("twin.other-parser-in-between")
+		if o.HarnessPanic != "" {
+			return harnessTrouble(v, o.HarnessPanic)
+		}
+		o2 := *o
+		o2.Ops = nil
+		dead := false
+		for _, r := range o.Ops {
+			if r.Op == "decoy" {
+				if r.Panic != "" || r.Exit || r.Budget {
+					dead = true
+				}
+				continue
+			}
+			o2.Ops = append(o2.Ops, r)
+		}
+		if field, cls, a, b, differs := diff(c15Observable(&o2)); differs && !dead {
+			v.OK = false
+			v.Class = "c15:depends-on-another-parser:" + cls
+			v.Msg = fmt.Sprintf("the same history with a second, unrelated parser declared and used between the operations gives a different %s:\n  without: %s\n  with:    %s", field, a, b)
+		}
+	}
+	// repeat twin: rendering help, man page or INI text, or answering a completion
+	// request, a second time right away gives the same bytes / the same list.
+	if v.OK && len(sc.Scheds) > 0 {
+		var cands []int
+		for i, op := range sc.Ops {
+			switch {
+			case op.Kind == "help" || op.Kind == "man" || (op.Kind == "iniwrite" && op.File == ""):
+				cands = append(cands, i)
+			case op.Kind == "parse" && i > 0 && sc.Ops[i-1].Kind == "setenv" && sc.Ops[i-1].Key == "GO_FLAGS_COMPLETION" && sc.Decl.CompHandler:
+				cands = append(cands, i)
+			}
+		}
+		if len(cands) > 0 {
+			k := cands[int(hashStr(mustJSON(sc.Ops))%uint64(len(cands)))]
+			sc6 := *sc
+			sc6.Ops = append(append(append([]Op{}, sc.Ops[:k+1]...), sc.Ops[k]), sc.Ops[k+1:]...)
+			o := Execute(&sc6, sc.Scheds[0])
+			v.Evals++
+			v.stat("twin.repeat:" + sc.Ops[k].Kind)
+			if o.HarnessPanic != "" {
+				return harnessTrouble(v, o.HarnessPanic)
+			}
+			if k+1 < len(o.Ops) {
+				a, b := o.Ops[k], o.Ops[k+1]
+				proj := func(r OpResult) []string {
+					return []string{"out=" + string(r.Out), "fd1=" + string(r.Fd1), "fd2=" + string(r.Fd2), "completions=" + mustJSON(r.Comp),
+						"err=" + r.Err + "/" + r.ErrType, "msg=" + string(r.Msg)}
+				}
+				pa, pb := proj(a), proj(b)
+				ended := a.Panic != "" || a.Exit || a.Budget || a.Skipped || b.Skipped || a.Inconclusive || b.Inconclusive
+				for j := range pa {
+					if !ended && pa[j] != pb[j] {
+						field := strings.SplitN(pa[j], "=", 2)[0]
+						v.OK = false
+						v.Class = "c15:repeated-evaluation-differs:" + sc.Ops[k].Kind + ":" + field
+						v.Msg = fmt.Sprintf("operation %d (%s) was evaluated twice in a row on the same parser; %s differs:\n  first:  %s\n  second: %s", k, sc.Ops[k].Kind, field, clip(after(pa[j]), 600), clip(after(pb[j]), 600))
+						break
+					}
+				}
+			}
+		}
+	}
+	// delivery twin: how the reader hands over the INI bytes (all at once or in
+	// small pieces) is incidental; nothing observable may depend on it.
+	if v.OK && len(sc.Scheds) > 0 {
+		sc7 := *sc
+		sc7.Ops = append([]Op{}, sc.Ops...)
+		n := 0
+		for i := range sc7.Ops {
+			op := &sc7.Ops[i]
+			if op.Kind == "iniread" && len(op.Chunks) == 0 && op.FailAt == 0 && op.Rest == 0 {
+				op.Rest = 1 + int(hashStr(string(op.Data))%1500)
+				if hashStr(string(op.Data))%3 == 0 {
+					op.Rest = 1
+				}
+				n++
+			}
+		}
+		if n > 0 {
+			o := Execute(&sc7, sc.Scheds[0])
+			v.Evals++
+			v.stat("twin.reader-delivery")
+			if o.HarnessPanic != "" {
+				return harnessTrouble(v, o.HarnessPanic)
+			}
+			if field, cls, a, b, differs := diff(c15Observable(o)); differs {
+				v.OK = false
+				v.Class = "c15:depends-on-reader-delivery:" + cls
+				v.Msg = fmt.Sprintf("the same history with the INI bytes delivered in small pieces instead of all at once gives a different %s:\n  at once: %s\n  pieces:  %s", field, a, b)
+			}
+		}
+	}
+	// fresh-parser twin: the answer to a completion request is a function of the
+	// declarations, the environment and the words; asked of a parser that has
+	// served nothing before, it is the same.
+	if v.OK && len(sc.Scheds) > 0 && baseOut != nil && sc.Decl.CompHandler {
+		for k, op := range sc.Ops {
+			if !(op.Kind == "parse" && k > 0 && sc.Ops[k-1].Kind == "setenv" && sc.Ops[k-1].Key == "GO_FLAGS_COMPLETION") || k >= len(baseOut.Ops) {
+				continue
+			}
+			served := false
+			sc8 := *sc
+			sc8.Ops = nil
+			for _, e := range sc.Ops[:k] {
+				switch e.Kind {
+				case "store", "setenv", "unsetenv":
+					sc8.Ops = append(sc8.Ops, e)
+				default:
+					served = true
+				}
+			}
+			if !served {
+				continue
+			}
+			sc8.Ops = append(sc8.Ops, op)
+			o := Execute(&sc8, sc.Scheds[0])
+			v.Evals++
+			v.stat("twin.completion-on-fresh-parser")
+			if o.HarnessPanic != "" {
+				return harnessTrouble(v, o.HarnessPanic)
+			}
+			a, b := baseOut.Ops[k], o.Ops[len(o.Ops)-1]
+			if a.Skipped || b.Skipped || a.Panic != "" || b.Panic != "" || a.Budget || b.Budget || a.Inconclusive || b.Inconclusive {
+				break
+			}
+			if mustJSON(a.Comp) != mustJSON(b.Comp) {
+				v.OK = false
+				v.Class = "c15:completion-depends-on-earlier-calls"
+				v.Msg = fmt.Sprintf("completion request %q (operation %d): the list differs from the one a parser that has served nothing before gives for the same words, environment and stored values:\n  in the history: %s\n  fresh parser:   %s", strs(op.Argv), k, clip(mustJSON(a.Comp), 600), clip(mustJSON(b.Comp), 600))
+			}
 			break
 		}
 	}
